@@ -1,0 +1,43 @@
+//go:build verif
+
+package highlight
+
+// Verification-only trace hook for the highlighter (property C30 of the Lean
+// verification machinery). Compiled only with -tags verif; the normal build
+// uses the empty stub in trace_noverif.go. It adds no behaviour: a consumer
+// installed by a test harness is told which protocol step the code just took.
+
+import "sync/atomic"
+
+// VerifTraceFunc receives one trace entry. Arguments are plain values: string,
+// bool, []VerifRegion (a private copy) or ui.Text (never mutated after it has
+// been published by the highlighter).
+type VerifTraceFunc func(label string, args ...interface{})
+
+var verifTraceFn atomic.Pointer[VerifTraceFunc]
+
+// VerifSetTrace installs (or, with nil, removes) the trace consumer. The
+// consumer is called on the goroutine that takes the step; the entries
+// written from Highlighter.Get, the late callback and InvalidateCache are
+// written while Highlighter.cacheMutex is held, so a consumer that appends
+// them to one log sees them in the order of the critical sections.
+func VerifSetTrace(f VerifTraceFunc) {
+	if f == nil {
+		verifTraceFn.Store(nil)
+		return
+	}
+	verifTraceFn.Store(&f)
+}
+
+func verifTrace(label string, args ...interface{}) {
+	f := verifTraceFn.Load()
+	if f == nil {
+		return
+	}
+	for i, a := range args {
+		if rs, ok := a.([]region); ok {
+			args[i] = verifCopyRegions(rs)
+		}
+	}
+	(*f)(label, args...)
+}
